@@ -32,9 +32,13 @@ def teardown():
 
 SRC = "/tmp/rs_scratch/src/"
 BIN = "/tmp/replay_scratch/target/release/search"
+# e.g. MUT_PREFIX="taskset -c 0-2" runs every search / replay under that CPU affinity
+PREFIX = os.environ.get("MUT_PREFIX", "").split()
 
 # (name, file, old, new, [properties expected to FIND it], occurrence index)
 MUTS = [
+    ("AdjacencyList::complete chunks by order / t instead of order.div_ceil(t)", "repr/adjacency_list/mod.rs",
+     "let chunk_size = order.div_ceil(t);", "let chunk_size = order / t;", ["C17", "C14"], 1),
     ("AdjacencyMatrix ArcsIterator shifts by bit + 1 (shift by 64 = endless loop when bit 63 is alone)", "repr/adjacency_matrix/mod.rs",
      "                self.current_bits &= self.current_bits - 1;\n\n                let cell_index = self.current_base + bit;",
      "                let cell_index = self.current_base + bit;\n                self.current_bits >>= bit + 1;\n                self.current_base = cell_index + 1;", ["C01", "C02"], 0),
@@ -76,15 +80,15 @@ MUTS = [
      "            unsafe { (*b_ptr.add(u)).clear() };", ["C10"], 0),
     ("AdjacencyList::is_semicomplete skips the last partial chunk of rows", "repr/adjacency_list/mod.rs",
      "                let end = order.min(start + chunk_size);",
-     "                let end = if start + chunk_size > order { start } else { start + chunk_size };", ["C12"], 0),
+     "                let end = if start + chunk_size > order { start } else { start + chunk_size };", ["C12", "C17"], 0),
     ("AdjacencyList::complement drops the last partial chunk of rows", "repr/adjacency_list/mod.rs",
      "            let end = order.min(start + chunk_size);",
-     "            let end = if start + chunk_size > order && order > 16 { start } else { order.min(start + chunk_size) };", ["C11"], 0),
+     "            let end = if start + chunk_size > order { start } else { order.min(start + chunk_size) };", ["C11", "C17"], 0),
     ("AdjacencyList::union leaves the last row of a partial chunk empty", "repr/adjacency_list/mod.rs",
      "let chunk_end = (chunk_start + chunk_size).min(order);",
-     "let chunk_end = if chunk_start + chunk_size > order { order - 1 } else { chunk_start + chunk_size };", ["C11"], 0),
+     "let chunk_end = if chunk_start + chunk_size > order { order - 1 } else { chunk_start + chunk_size };", ["C11", "C17"], 0),
     ("AdjacencyList::degree_sequence has one indegree buffer too few", "repr/adjacency_list/mod.rs",
-     "vec![vec![0_usize; order]; t];", "vec![vec![0_usize; order]; t - 1];", ["C02"], 0),
+     "vec![vec![0_usize; order]; t];", "vec![vec![0_usize; order]; t - 1];", ["C02", "C17"], 0),
     ("Dijkstra relaxation wraps instead of saturating", "algo/dijkstra.rs",
      "w_prev.saturating_add(*w)", "w_prev.wrapping_add(*w)", ["C03"], 0),
     ("DijkstraDist relaxation wraps instead of saturating", "algo/dijkstra_dist.rs",
@@ -210,19 +214,25 @@ def main():
             mutated = orig[:idx[3]] + "if *dist_v > w && false {" + orig[idx[3] + len(marker):]
         else:
             assert orig.count(old) >= 1, "pattern not found for " + name
-            mutated = orig.replace(old, new) if occ == "all" else orig.replace(old, new, 1)
+            if occ == "all":
+                mutated = orig.replace(old, new)
+            elif isinstance(occ, int) and occ > 0:
+                idx = [i for i in range(len(orig)) if orig.startswith(old, i)]
+                mutated = orig[:idx[occ]] + new + orig[idx[occ] + len(old):]
+            else:
+                mutated = orig.replace(old, new, 1)
         open(path, "w").write(mutated)
         try:
             build()
             for p in props:
                 t = time.time()
-                r = run([BIN, p, "1"])
+                r = run(PREFIX + [BIN, p, "1"])
                 dt = time.time() - t
                 out = r.stdout.strip()
                 found = out.startswith("FOUND ")
                 rep = ""
                 if found:
-                    rr = run([BIN, p, "--replay", out[6:]])
+                    rr = run(PREFIX + [BIN, p, "--replay", out[6:]])
                     rep = "replay:" + rr.stdout.strip()[:5]
                     if not rr.stdout.startswith("FOUND"):
                         ok = False
